@@ -19,6 +19,10 @@ from concurrent.futures import ThreadPoolExecutor
 VERIF = os.path.dirname(os.path.dirname(os.path.abspath(__file__)))
 REPO = os.environ.get("VERIF_REPO", "/repo")
 BUILD = os.path.join(VERIF, ".build")
+if os.path.realpath(REPO) != "/repo":
+    # scratch worktrees get their own object directory (the lake lock stays shared)
+    BUILD = os.path.join(VERIF, ".build", "alt-" + hashlib.sha256(os.path.realpath(REPO).encode()).hexdigest()[:10])
+LAKE_LOCK_DIR = os.path.join(VERIF, ".build")
 LEAN = os.path.join(VERIF, "lean")
 GUARD = "CARES_VERIF_HOOKS"
 JOBS = int(os.environ.get("VERIF_JOBS", "16"))
@@ -44,7 +48,7 @@ def sh(cmd, **kw):
 class Lock:
     def __init__(self, name):
         os.makedirs(BUILD, exist_ok=True)
-        self.path = os.path.join(BUILD, name + ".lock")
+        self.path = os.path.join(LAKE_LOCK_DIR if name == "lake" else BUILD, name + ".lock")
 
     def __enter__(self):
         self.f = open(self.path, "w")
